@@ -180,7 +180,7 @@ def exhaustive_executions(quick, seed):
     for (a, b) in [(0, 0), (0, 2), (4, 5)]:
         hs += list(port_pair_executions(a, b, 1 if not quick else 3, seed + b))
     for e in EMUS:
-        hs += list(burst_executions(e, 1 if not quick else 2, seed + e))
+        hs += list(burst_executions(e, 1, seed + e))
     trip = [(1, 8, 4), (8, 4, 1), (4, 1, 8), (0, 2, 5), (3, 6, 2), (2, 5, 0)]
     for (a, b, c) in trip:
         hs += list(triple_executions(a, b, c, 40 if not quick else 240, seed + a))
